@@ -130,6 +130,10 @@ package internal
 //@ func (pathFormat).formatCall
 //@   requires c != nil
 //@   modifies nothing
+//@   assert after-call fmt.Sprintf#1: [relativeFormShowsTheRelativePath C16] pf == relPath && c.RelSrcPath != "" && len(arg1) == 2 && strof(arg1[0]) == c.RelSrcPath && intof(arg1[1]) == c.Line
+//@   assert after-call fmt.Sprintf#3: [fullFormShowsTheLocalPathWhenKnown C16] (pf == fullPath || (pf == relPath && c.RelSrcPath == "")) && c.LocalSrcPath != "" && len(arg1) == 2 && strof(arg1[0]) == c.LocalSrcPath && intof(arg1[1]) == c.Line
+//@   assert after-call fmt.Sprintf#4: [fullFormFallsBackToTheRemotePath C16] (pf == fullPath || (pf == relPath && c.RelSrcPath == "")) && c.LocalSrcPath == "" && len(arg1) == 2 && strof(arg1[0]) == c.RemoteSrcPath && intof(arg1[1]) == c.Line
+//@   assert after-call fmt.Sprintf#2: [baseFormShowsTheFileName C16] pf != relPath && pf != fullPath && len(arg1) == 2 && strof(arg1[0]) == c.SrcName && intof(arg1[1]) == c.Line
 //@ func (pathFormat).createdByString
 //@   requires s != nil
 //@   modifies nothing
